@@ -194,6 +194,9 @@ func c06Strata() []*gast.Grammar {
 		mk(r("S", gast.C(gast.S(gast.Ref("A"), gast.L("!")), gast.S(gast.L("x"), gast.Ref("A")))),
 			r("A", act(gast.S(gast.Lab("a", gast.Star(gast.L("x"))), gast.S(gast.Lab("b", gast.L("y")), gast.Lab("d", gast.Opt(gast.L("y"))))), 1))),
 		nest(8), nest(14),
+		// a repetition that matched from o to e is evaluated again exactly at e (zero iterations there)
+		mk(r("S", gast.C(gast.S(gast.Lab("a", gast.Ref("As")), gast.L("?")), gast.S(gast.L("xx"), gast.Lab("b", gast.Ref("As")), gast.L("!")), gast.S(gast.L("x"), gast.Lab("d", gast.Ref("Bs")), gast.Star(gast.Dot())))),
+			r("As", gast.Star(gast.L("x"))), r("Bs", gast.S(gast.Plus(gast.L("x")), gast.Opt(gast.Star(gast.L("x")))))),
 	}
 }
 
